@@ -1,11 +1,11 @@
-// counterexamples for harness c14::c14_vcut_open_extreme_left_e0e1e2 (property C14); replay: ./check C14 --replay <this file>
+// counterexamples for harness c14::c14_vcut_open_extreme_left_e1 (property C14); replay: ./check C14 --replay <this file>
 // features: c14
 #![allow(unused_imports)]
 use crate::c14::*;
 
-/// Test generated for harness `c14::c14_vcut_open_extreme_left_e0e1e2` 
+/// Test generated for harness `c14::c14_vcut_open_extreme_left_e1` 
 ///
-/// Check for `assertion`: ""open bounds: the extreme value of the type is labelled like any other value""
+/// Check for `cover`: "label count does not match the edges"
 ///
 /// # Warning
 ///
@@ -19,12 +19,14 @@ use crate::c14::*;
 /// logic.
 
 #[test]
-fn kani_concrete_playback_c14_vcut_open_extreme_left_e0e1e2_11618563662998870774() {
+fn kani_concrete_playback_c14_vcut_open_extreme_left_e1_1189972190656108644() {
     let concrete_vals: Vec<Vec<u8>> = vec![
+        // 2147483645
+        vec![253, 255, 255, 127],
         // 1
         vec![1],
         // 2147483647
         vec![255, 255, 255, 127],
     ];
-    kani::concrete_playback_run(concrete_vals, c14_vcut_open_extreme_left_e0e1e2);
+    kani::concrete_playback_run(concrete_vals, c14_vcut_open_extreme_left_e1);
 }
